@@ -205,13 +205,19 @@ def oracle_curve(inp):
     m = cc(); out = []
     xs = np.array(sorted(set(F32(v) for v in inp['xs'])), dtype=np.float32)
     img = torch.tensor(xs).reshape(1, 1, 1, -1).repeat(1, 3, 1, 1)
-    for name, fn, slack in (('decode', m.rgb_to_linear_rgb, 0.0), ('encode', m.linear_rgb_to_rgb, 3e-8)):
+    for name, fn, knee, step in (('decode', m.rgb_to_linear_rgb, 0.04045, 0.0), ('encode', m.linear_rgb_to_rgb, 0.0031308, 3e-8)):
         y = fn(img)[0, 0, 0].numpy().astype(np.float64)
-        drop = np.maximum.accumulate(y)[:-1] - y[1:]            # how far any later value falls below an earlier one
-        tol = slack + 2.5e-7 * np.abs(y[1:]) + 1e-12            # 2 ulp of float32 pow
-        bad = np.where(drop > tol)[0]
-        out.append(('%s_monotone' % name, len(bad) == 0, 'non-decreasing (slack %g + 2 ulp)' % slack,
-                    None if len(bad) == 0 else {'x': float(xs[bad[0] + 1]), 'drop': float(drop[bad[0]])}))
+        lo = xs <= F32(knee)
+        for side, sel in (('below_knee', lo), ('above_knee', ~lo)):
+            ys = y[sel]; xsel = xs[sel]
+            if len(ys) < 2: continue
+            drop = np.maximum.accumulate(ys)[:-1] - ys[1:]
+            bad = np.where(drop > 2.5e-7 * np.abs(ys[1:]) + 1e-12)[0]       # 2 ulp of float32 pow
+            out.append(('%s_monotone_%s' % (name, side), len(bad) == 0, 'non-decreasing (2 ulp)',
+                        None if len(bad) == 0 else {'x': float(xsel[bad[0] + 1]), 'drop': float(drop[bad[0]])}))
+        if lo.any() and (~lo).any():
+            gap = float(y[lo].max() - y[~lo].min())
+            out.append(('%s_step_at_knee_bounded' % name, gap <= step + 1e-9, 'values above the knee >= values below it - %g' % step, gap))
     for name, fn, knee in (('decode', m.rgb_to_linear_rgb, 0.04045), ('encode', m.linear_rgb_to_rgb, 0.0031308)):
         k = F32(knee); pts = [k]
         for _ in range(3): pts.append(np.nextafter(pts[-1], F32(1)))
@@ -224,6 +230,17 @@ def oracle_curve(inp):
          [float(m.linear_rgb_to_rgb(torch.tensor([[[[v]]] * 3]))[0, 0, 0, 0]) for v in (0.0, 1.0)]
     out.append(('endpoints', max(abs(e0[0]), abs(e0[1] - 1), abs(e0[2]), abs(e0[3] - 1)) <= 1e-6, [0, 1, 0, 1], e0))
     return out
+
+
+def oracle_knee(inp):
+    """exact monotonicity over the neighbouring float32 values around a knee"""
+    m = cc(); fn = m.rgb_to_linear_rgb if inp['curve'] == 'decode' else m.linear_rgb_to_rgb
+    pts = np.array(ulps(inp['x0'], range(-inp['n'], inp['n'] + 1)), dtype=np.float32)
+    y = fn(torch.tensor(pts).reshape(1, 1, 1, -1).repeat(1, 3, 1, 1))[0, 0, 0].numpy().astype(np.float64)
+    d = np.diff(y); k = int(d.argmin())
+    obs = {'x': float(pts[k]), 'next_x': float(pts[k + 1]), 'f(x)': float(y[k]), 'f(next_x)': float(y[k + 1])}
+    return [('%s_monotone_across_knee' % inp['curve'], float(d.min()) >= 0.0, 'non-decreasing over consecutive floats', obs),
+            ('%s_knee_step_bounded' % inp['curve'], float(d.min()) >= -3.1e-8, 'no step below -3e-8', obs)]
 
 
 def make_display(spec):
@@ -318,7 +335,7 @@ def oracle_lab_layout(inp):
     return out
 
 
-ORACLES = {'roundtrip': oracle_roundtrip, 'reference': oracle_reference, 'anchors': oracle_anchors, 'curve': oracle_curve,
+ORACLES = {'roundtrip': oracle_roundtrip, 'reference': oracle_reference, 'anchors': oracle_anchors, 'curve': oracle_curve, 'knee': oracle_knee,
            'lms': oracle_lms, 'lab_layout': oracle_lab_layout}
 FUNC_OF = {'ycrcb': 'rgb_2_ycrcb', 'gamma': 'rgb_to_linear_rgb', 'xyz': 'linear_rgb_to_xyz', 'hsv': 'rgb_to_hsv', 'lab': 'srgb_to_lab'}
 
@@ -329,7 +346,7 @@ def function_name(name, inp, clause):
                                               'lms_to_primaries' if clause.startswith('lms_roundtrip') else 'primaries_to_lms')
     if name == 'lab_layout':
         return MOD + '.' + clause.split('_layout')[0]
-    if name == 'curve':
+    if name in ('curve', 'knee'):
         return MOD + '.' + ('rgb_to_linear_rgb' if clause.startswith('decode') else 'linear_rgb_to_rgb')
     if name == 'anchors':
         return MOD + '.' + ('srgb_to_lab' if 'lab' in clause or 'white_L' in clause or 'white_ab' in clause or 'black' in clause else
@@ -584,6 +601,9 @@ def run_oracles(ctx, n_random, n_curve):
         xs = [rng.random() for _ in range(400)] + ulps(0.04045, range(-8, 9)) + ulps(0.0031308, range(-8, 9)) + [0.0, 1.0] + \
              [rng.uniform(0.0030, 0.0033) for _ in range(100)] + [rng.uniform(0.040, 0.041) for _ in range(100)]
         apply_oracle(ctx, 'curve', {'xs': xs}); ctx.case('curve', ('curve', k))
+    for curve, x0 in (('decode', 0.04045), ('encode', 0.0031308)):
+        for n in (2, 8, 32):
+            apply_oracle(ctx, 'knee', {'curve': curve, 'x0': x0, 'n': n}); ctx.case('knee/%s' % curve, ('knee', curve, n))
     for k in range(max(4, n_random // 3)):
         shape = [rng.randint(1, 3), 3, rng.randint(1, 4), rng.randint(1, 4)]
         inp = {'spectra': gen_spectra(rng, well=(k % 4 != 3)), 'pixels': random_pixels(rng, 6) + [[0, 0, 0], [1, 1, 1], [1, 0, 0]], 'shape': shape}
